@@ -85,9 +85,18 @@ def cases(rng, tier):
         ("l.etk", [("l", "l.etk", "l.etk")]),
         ("a.etk", [("f", "a.etk", b'%import("b.etk")\n'), ("f", "b.etk", b"push1 256\n")]),
         ("a.etk", [("f", "a.etk", b'%include("b.etk")\n'), ("f", "b.etk", b"%m()\n")]),
+        ("a.etk", [("f", "a.etk", b'%include_hex("d")\n'), ("d", "d")]),
+        ("a.etk", [("f", "a.etk", b'%include_hex("h")\n'), ("f", "h", b"\xff\xfe")]),
+        ("a.etk", [("f", "a.etk", b'%include_hex("l")\n'), ("l", "l", "l")]),
     ]
     for top, ents in graphs:
         cs.append({"line": F.line(top, ents), "tags": ["file-graph"], "src": top})
+    # builtins applied to the wrong number / kind of arguments (the argument-signature code of parse/args.rs)
+    for src in ['%push(1, 2)', '%import("a", "b")', '%include_hex("a","b","c")', '%include("a", 1)', '%push()', '%import()', '%include()',
+                '%include_hex()', '%push("a")', '%import(1)', '%include(lbl)', '%include_hex($x)', 'push1 selector("a","b")',
+                'push1 selector(1)', 'push1 topic()', 'push1 selector()', '%push(selector("f()"), 1)', '%push(1,)', '%push(,1)',
+                '%import("a" "b")', '%m(1,,2)', '%m(', '%push(1', '%def f(\n1\n%end', '%macro m(a,)\n%end', '%macro m(a a)\n%end']:
+        cs.append({"line": "asm " + C.txt(src), "tags": ["builtin-args"], "src": src})
     # for this property bounded time IS the observable: a request that exceeds the wall-clock limit is a failure
     for c in cs:
         c["time_observable"] = True
